@@ -8,7 +8,9 @@ package main
 
 import (
 	"fmt"
-	"sort"
+	"regexp"
+	"runtime"
+	"strings"
 	"sync/atomic"
 	"time"
 
@@ -22,16 +24,11 @@ type c08Evt struct {
 }
 
 type c08Ctl struct {
-	cur    int // thread currently released (exactly one runs at a time)
+	cur    int // thread currently released; a thread that calls the yield hook is always this one
 	resume []chan struct{}
 	events chan c08Evt
 	cstep  int // steps executed by the committer (thread 0)
 	clones []c08Clone
-}
-
-type c08Clone struct {
-	cstep int
-	tok   string
 }
 
 var c08Active atomic.Pointer[c08Ctl]
@@ -49,15 +46,41 @@ func init() {
 	c08RunConc = c08RunConcHook
 }
 
-func c08RunConcHook(w *scWorld, b *scBH, readers []c08Reader, sched string) (results []string, trace []string, order []string, errs string) {
-	n := 1 + len(readers)
-	ctl := &c08Ctl{resume: make([]chan struct{}, n), events: make(chan c08Evt)}
+var c08GoidRe = regexp.MustCompile(`^goroutine (\d+) `)
+
+func c08Goid() string {
+	buf := make([]byte, 64)
+	n := runtime.Stack(buf, false)
+	if m := c08GoidRe.FindSubmatch(buf[:n]); m != nil {
+		return string(m[1])
+	}
+	return ""
+}
+
+// c08BlockedOnMutex reports whether goroutine id is parked in sync.Mutex.Lock / sync.RWMutex.Lock
+func c08BlockedOnMutex(id string) bool {
+	buf := make([]byte, 1<<16)
+	n := runtime.Stack(buf, true)
+	for _, blk := range strings.Split(string(buf[:n]), "\n\n") {
+		if strings.HasPrefix(blk, "goroutine "+id+" [") {
+			hdr := blk[:strings.IndexByte(blk, '\n')]
+			return strings.Contains(hdr, "sync.Mutex.Lock") || strings.Contains(hdr, "semacquire") || strings.Contains(hdr, "sync.RWMutex")
+		}
+	}
+	return false
+}
+
+func c08RunConcHook(w *scWorld, b *scBH, threads []c08Thread, sched string) (results []string, trace []string, clones []c08Clone, errs string) {
+	n := 1 + len(threads)
+	ctl := &c08Ctl{resume: make([]chan struct{}, n), events: make(chan c08Evt, n)}
 	for i := range ctl.resume {
 		ctl.resume[i] = make(chan struct{})
 	}
 	results = make([]string, n)
 	parked := make([]string, n)
 	finished := make([]bool, n)
+	launched := make([]bool, n)
+	waiting := make([]bool, n) // writer blocked on the block cache's mutex: completes when the commit returns
 	onClone := func(v *bval) {
 		if c := c08Active.Load(); c != nil && c.cur == 0 {
 			c.clones = append(c.clones, c08Clone{c.cstep, hx(v.b)})
@@ -69,50 +92,136 @@ func c08RunConcHook(w *scWorld, b *scBH, readers []c08Reader, sched string) (res
 		bvalOnClone.Store(nil)
 		c08Active.Store(nil)
 	}()
-	wait := func() bool {
-		select {
-		case e := <-ctl.events:
-			if e.done {
-				finished[e.t] = true
-			} else {
-				parked[e.t] = e.point
+	note := func(e c08Evt) {
+		if e.done {
+			finished[e.t] = true
+			waiting[e.t] = false
+		} else {
+			parked[e.t] = e.point
+		}
+	}
+	// waitFor blocks until an event of thread t arrives (events of other threads — a writer released by the end of
+	// the commit — are recorded on the way)
+	waitFor := func(t int) bool {
+		for {
+			select {
+			case e := <-ctl.events:
+				note(e)
+				if e.t == t {
+					return true
+				}
+			case <-time.After(10 * time.Second):
+				errs = fmt.Sprintf("thread %d did not reach a yield point or its end within 10s (parked: %v)", t, parked)
+				return false
 			}
-			return true
-		case <-time.After(10 * time.Second):
-			errs = fmt.Sprintf("thread %d did not reach a yield point or its end within 10s (parked: %v)", ctl.cur, parked)
-			return false
 		}
 	}
 	launch := func(t int, body func() string) bool {
 		ctl.cur = t
+		launched[t] = true
 		go func() {
 			r := guard(body)
 			results[t] = r
 			ctl.events <- c08Evt{t: t, done: true}
 		}()
-		return wait()
+		return waitFor(t)
 	}
 	if !launch(0, func() string { b.bc.Commit(); return "ok" }) {
 		return
 	}
-	for i, r := range readers {
-		r := r
-		if !launch(i+1, func() string { return w.outGet(w.sc.Get(r.key, r.hash)) }) {
-			return
+	for i, th := range threads {
+		th := th
+		if th.kind == "get" {
+			if !launch(i+1, func() string { return w.outGet(w.sc.Get(th.key, th.hash)) }) {
+				return
+			}
 		}
 	}
+	// a writer has a single step: the whole call. It never reaches a yield point; it either returns or blocks on the
+	// block cache's mutex until the commit returns.
+	stepWriter := func(t int) bool {
+		th := threads[t-1]
+		launched[t] = true
+		trace = append(trace, fmt.Sprintf("%d:write", t))
+		idCh := make(chan string, 1)
+		go func() {
+			idCh <- c08Goid()
+			r := guard(func() string {
+				switch th.kind {
+				case "set":
+					b.bc.Set(th.key, scMkValue(th.val, w.node))
+				case "tcommit":
+					w.th[th.tid].tc.Commit()
+				}
+				return "ok"
+			})
+			results[t] = r
+			ctl.events <- c08Evt{t: t, done: true}
+		}()
+		id := <-idCh
+		deadline := time.Now().Add(2 * time.Second)
+		for i := 0; ; i++ {
+			select {
+			case e := <-ctl.events:
+				note(e)
+				if e.t == t {
+					return true
+				}
+			default:
+			}
+			if i%8 == 7 && c08BlockedOnMutex(id) {
+				waiting[t] = true
+				return true
+			}
+			if time.Now().After(deadline) {
+				errs = fmt.Sprintf("writer thread %d neither returned nor blocked on a mutex within 2s", t)
+				return false
+			}
+			runtime.Gosched()
+			if i > 64 {
+				time.Sleep(20 * time.Microsecond)
+			}
+		}
+	}
+	collectWaiting := func() bool {
+		for t := 1; t < n; t++ {
+			if waiting[t] && !waitFor(t) {
+				return false
+			}
+		}
+		return true
+	}
 	step := func(t int) bool {
+		if t > 0 && threads[t-1].kind != "get" {
+			return stepWriter(t)
+		}
 		ctl.cur = t
 		if t == 0 {
 			ctl.cstep++
 		}
 		trace = append(trace, fmt.Sprintf("%d:%s", t, parked[t]))
 		ctl.resume[t] <- struct{}{}
-		return wait()
+		if !waitFor(t) {
+			return false
+		}
+		if t == 0 && finished[0] {
+			// the commit returned: writers that were blocked on the block cache's mutex run now
+			return collectWaiting()
+		}
+		return true
+	}
+	runnable := func(t int) bool {
+		if finished[t] || waiting[t] {
+			return false
+		}
+		if t > 0 && threads[t-1].kind != "get" && launched[t] {
+			return false
+		}
+		return true
 	}
 	for _, ch := range sched {
 		t := int(ch - '0')
-		if t < 0 || t >= n || finished[t] {
+		if t < 0 || t >= n || !runnable(t) {
 			continue
 		}
 		if !step(t) {
@@ -120,46 +229,15 @@ func c08RunConcHook(w *scWorld, b *scBH, readers []c08Reader, sched string) (res
 		}
 	}
 	for t := 0; t < n; t++ {
-		for !finished[t] {
+		for runnable(t) {
 			if !step(t) {
 				return
 			}
 		}
 	}
-	// order in which commit() visited the block's keys: key i is fetched (and its value cloned) in committer step 2+3i
-	type kp struct {
-		key string
-		pos int
+	if !collectWaiting() {
+		return
 	}
-	var kps []kp
-	used := map[int]bool{}
-	var tombs []string
-	for k, e := range b.pending {
-		if e.tomb {
-			tombs = append(tombs, k)
-			continue
-		}
-		pos := -1
-		for _, c := range ctl.clones {
-			if c.tok == e.val && (c.cstep-2)%3 == 0 {
-				pos = (c.cstep - 2) / 3
-			}
-		}
-		kps = append(kps, kp{k, pos})
-		used[pos] = true
-	}
-	sort.Strings(tombs)
-	for _, k := range tombs {
-		p := 0
-		for used[p] {
-			p++
-		}
-		used[p] = true
-		kps = append(kps, kp{k, p})
-	}
-	sort.Slice(kps, func(i, j int) bool { return kps[i].pos < kps[j].pos })
-	for _, x := range kps {
-		order = append(order, x.key)
-	}
+	clones = ctl.clones
 	return
 }
